@@ -130,18 +130,21 @@ def run(ck, facts, tier):
     ck.check(r2, "get_variable_tags", okg, "get_variable_tags(name, n) is not [name + i for i in 0..n]", detail=detg, sample="(0..n).map(|i| name + i)")
     # nodes_into_order
     nio = "curves::curve_py::nodes_into_order"
-    r = facts.fn(nio)
+    r = facts.fn(nio) or facts.fn("curves::curve_py::Curve::new_py")
     if r is None:
-        ck.fail(r2, "nodes_into_order", "function not found")
+        ck.fail(r2, "nodes_into_order", "neither nodes_into_order nor Curve::new_py found")
     else:
         where = "%s:%d" % (r["file"], r["line"])
-        P = cfgmod.Program(facts)
-        c = P.cfgs[nio]
-        sorts = [i for i, t in c.calls() if re.search(r"IndexMap.*::sort_keys$", c.callee_name(t) or "")]
-        iters = [i for i, t in c.calls() if re.search(r"(into_iter|enumerate)$", c.callee_name(t) or "")]
-        ck.check(r2, "nodes_into_order:sort-before-enumerate", bool(sorts) and bool(iters) and all(any(c.dominates(s, i) for s in sorts) for i in iters),
-                 "nodes are enumerated before (or without) being sorted by date: tag i would not be the i-th node in date order", where,
-                 sample="sort_keys dominates %d iterator constructions" % len(iters))
+        if facts.fn(nio) is not None:
+            P = cfgmod.Program(facts)
+            c = P.cfgs[nio]
+            sorts = [i for i, t in c.calls() if re.search(r"IndexMap.*::sort_keys$", c.callee_name(t) or "")]
+            iters = [i for i, t in c.calls() if re.search(r"(into_iter|enumerate)$", c.callee_name(t) or "")]
+            ck.check(r2, "nodes_into_order:sort-before-enumerate", bool(sorts) and bool(iters) and all(any(c.dominates(s, i) for s in sorts) for i in iters),
+                     "nodes are enumerated before (or without) being sorted by date: tag i would not be the i-th node in date order", where,
+                     sample="sort_keys dominates %d iterator constructions" % len(iters))
+        else:
+            ck.ok(r2, "nodes_into_order:sort-before-enumerate", sample="no helper of that name: the evaluated constructor must walk the sorted map (checked per order below)")
         for order, tgt in ORDER_OF.items():
             key = "nodes_into_order(->%s)" % order
             nodes = Sym("param", "nodes")
@@ -157,15 +160,27 @@ def run(ck, facts, tier):
                 return None
             ev = cel.Ev(facts, hooks={**hooks, "@elem": elem_})
             try:
-                res = ev.apply_fn(nio, [nodes, Sym("ctor", order), Sym("id")], 0)
+                # judged on what the Python-facing constructor hands to CurveDF::try_new (the helper between them may take the id or the ready-made tags)
+                cap = {}
+
+                def cap_try_new(ev_, vals, e_, cap=cap):
+                    cap["nodes"] = vals[0]
+                    return Sym("ctor", "Ok", Sym("curve"))
+                ev.hooks = dict(ev.hooks, **{"CurveDF::<T, U>::try_new": cap_try_new})
+                ev.apply_fn("curves::curve_py::Curve::new_py", [nodes, Sym("param", "interpolator"), Sym("ctor", order), Sym("id"), Sym("param", "convention"),
+                                                                 Sym("param", "modifier"), Sym("param", "calendar"), Sym("param", "index_base")], 0)
+                res = cap.get("nodes")
+                if res is None:
+                    raise Unsupported("Curve::new_py does not reach CurveDF::try_new")
             except Unsupported as e:
                 ck.fail(r2, key, "rule could not be established (%s)" % e, where)
                 continue
             ok = isinstance(res, Sym) and res.tag[:2] == ("ctor", tgt) and isinstance(res.tag[2], Coll)
             if ok:
                 sk = res.tag[2].seq.key()
-                zipped = sk[0] == "seq" and sk[1] in [cel.vkey(Sym("zip", cel.vkey(x), cel.vkey(tags))) for x in (nodes, sorted_nodes)]      # i-th node with i-th tag
-                ok = sk[0] == "seq" and (sk[1] in (cel.vkey(nodes), cel.vkey(sorted_nodes)) or zipped)
+                # the map that is walked is the map after `sort_keys()` (date order) — alone, or zipped with the tag list (i-th node with i-th tag)
+                zipped = sk[0] == "seq" and sk[1] == cel.vkey(Sym("zip", cel.vkey(sorted_nodes), cel.vkey(tags)))
+                ok = sk[0] == "seq" and (sk[1] == cel.vkey(sorted_nodes) or zipped)
                 if ok and tgt != "F64":
                     tag_i = Poly.atom(("call", "index", (cel.vkey(tags), Poly.atom("i").key())))
                     newvars = Sym("collect", cel.vkey(Tup([tag_i])))
